@@ -145,8 +145,29 @@ class Walker:
     # statements
     # ------------------------------------------------------------------
     def block(self, stmts, env):
-        for s in stmts:
-            self.stmt(s, env)
+        g0, x0 = self.guards, self.excl
+        try:
+            for s in stmts:
+                self.stmt(s, env)
+                # early-exit idiom: `if c: raise/return` (no else) guards the rest of the block with not c
+                if isinstance(s, ast.If) and self._last_test is not None:
+                    bt, bf = self._always_exits(s.body), (self._always_exits(s.orelse) if s.orelse else False)
+                    if bt and not bf:
+                        self.guards = self.guards + ((self._last_test, False, id(s)),)
+                    elif bf and not bt:
+                        self.guards = self.guards + ((self._last_test, True, id(s)),)
+        finally:
+            self.guards, self.excl = g0, x0
+
+    def _always_exits(self, stmts):
+        if not stmts:
+            return False
+        last = stmts[-1]
+        if isinstance(last, (ast.Raise, ast.Return, ast.Continue, ast.Break)):
+            return True
+        if isinstance(last, ast.If) and last.orelse:
+            return self._always_exits(last.body) and self._always_exits(last.orelse)
+        return False
 
     def stmt(self, s, env):
         if isinstance(s, ast.Assign):
@@ -186,8 +207,11 @@ class Walker:
         else:
             raise AnalysisError('statement kind %s outside the walker idiom in %s' % (type(s).__name__, self.fi.qualname))
 
+    _last_test = None
+
     def if_stmt(self, s, env):
         test = self.expr(s.test, env)
+        self._last_test = None
         bid = id(s)
         g0, x0 = self.guards, self.excl
         env1 = dict(env)
@@ -199,9 +223,17 @@ class Walker:
         self.excl = x0 + ((bid, 1),)
         self.block(s.orelse, env2)
         self.guards, self.excl = g0, x0
+        bt = self._always_exits(s.body)
+        bf = self._always_exits(s.orelse) if s.orelse else False
         for k in set(env1) | set(env2):
             a, b = env1.get(k, ('undef',)), env2.get(k, ('undef',))
-            env[k] = a if a == b else ('phi', test, a, b)
+            if bt and not bf:
+                env[k] = b          # the true arm never falls through
+            elif bf and not bt:
+                env[k] = a
+            else:
+                env[k] = a if a == b else ('phi', test, a, b)
+        self._last_test = test
 
     def assigned_names(self, stmts):
         out = set()
@@ -294,6 +326,8 @@ class Walker:
             root, chain = path
             if root == 'proc':
                 self.store_proc(chain, v, node)
+                if chain and chain[0] != 'registers':
+                    env['#proc:' + '.'.join(chain)] = v      # processor-local scratch: later reads see this value
             elif root == 'self':
                 self.emit('SelfStore', node, attr='.'.join(chain), value=v)
             else:
@@ -432,6 +466,9 @@ class Walker:
         if p is not None:
             root, chain = p
             if root == 'proc':
+                k = '#proc:' + '.'.join(chain)
+                if k in env:
+                    return env[k]
                 return self.proc_attr(chain, e)
             if root == 'self':
                 return ('field', '.'.join(chain))
